@@ -38,10 +38,12 @@ type scen struct {
 	trace   []string
 	emitted map[uint64]bool // drop already logged
 
-	base       int         // goroutines of package syncer that are not handlers inside the chain manager (see rebase)
-	endingRate int         // one request in endingRate ends in an error / panic / client abort (0: none)
-	noTrace    bool        // the closing part of the log is not a determined linearisation
-	peakSub    map[int]int // highest number of running handlers per subnet since the phase began
+	base        int           // goroutines of package syncer that are not handlers inside the chain manager (see rebase)
+	endingRate  int           // one request in endingRate ends in an error / panic / client abort (0: none)
+	noTrace     bool          // the closing part of the log is not a determined linearisation
+	settleBound time.Duration // overrides settleTimeout for the next settles (0: default)
+	settleKind  string        // overrides the failure kind of a settle that times out
+	peakSub     map[int]int   // highest number of running handlers per subnet since the phase began
 
 	steps []string // human readable script, for the replay file
 	fails []failure
@@ -305,7 +307,11 @@ func (sc *scen) atRest() (bool, string) {
 func (sc *scen) settle(what string) bool {
 	tb := sc.tb
 	var why string
-	ok := tb.waitFor(settleTimeout, func() bool {
+	bound := settleTimeout
+	if sc.settleBound > 0 {
+		bound = sc.settleBound
+	}
+	ok := tb.waitFor(bound, func() bool {
 		tb.mu.Lock()
 		rest, w := sc.atRest()
 		live := tb.live
@@ -338,7 +344,10 @@ func (sc *scen) settle(what string) bool {
 	})
 	if !ok {
 		kind := "syncer-blocked-request-not-served"
-		if strings.Contains(why, "handler goroutines") {
+		if sc.settleKind != "" {
+			kind = sc.settleKind
+		}
+		if strings.Contains(why, "handler goroutines") && sc.settleKind == "" {
 			kind = "syncer-handler-goroutine-stuck"
 		}
 		extra := ""
@@ -347,7 +356,7 @@ func (sc *scen) settle(what string) bool {
 				extra += "\n" + g
 			}
 		}
-		sc.failf(kind, "%s: no rest after %v: %s (limits: per-peer %d, per-subnet %d)%s", what, settleTimeout, why, sc.cfg.MaxRPC, sc.cfg.MaxSubnet, extra)
+		sc.failf(kind, "%s: no rest after %v: %s (limits: per-peer %d, per-subnet %d)%s", what, bound, why, sc.cfg.MaxRPC, sc.cfg.MaxSubnet, extra)
 	}
 	return ok
 }
